@@ -720,10 +720,18 @@ func (msc *MinerSmartContract) shareSignsOrShares(t *transaction.Transaction,
 		return "", common.NewError("share_signs_or_shares_failed", err.Error())
 	}
 
+	if _, ok = mpks.Mpks[t.ClientID]; !ok {
+		return "", common.NewError("share_signs_or_shares",
+			"miner has not contributed mpk")
+	}
+
 	var publicKeys = make(map[string]string)
 	for key, miner := range dmn.SimpleNodes {
 		publicKeys[key] = miner.PublicKey
 	}
+
+	// the message is the sender's: revealed shares are validated against the sender's mpk
+	sos.ID = t.ClientID
 
 	var shares []string
 	shares, ok = sos.Validate(mpks, publicKeys, balances.GetSignatureScheme())
@@ -736,7 +744,6 @@ func (msc *MinerSmartContract) shareSignsOrShares(t *transaction.Transaction,
 		dmn.RevealedShares[share]++
 	}
 
-	sos.ID = t.ClientID
 	gsos.Shares[t.ClientID] = sos
 
 	Logger.Debug("update gsos",
